@@ -11,7 +11,7 @@ PID = "C01"
 
 def run(tier):
     t0 = time.time()
-    exe = targets.get("h_drv")
+    exe = targets.get("h_drv_asan" if tier == "thorough" else "h_drv")   # thorough: ASan/UBSan build
     gen, gres = cvtcases.generate()
     configs = cvtcases.configs(exe)
     n = int(os.environ.get("VERIF_C01_N", "0")) or (9000 if tier == "thorough" else 1100)
